@@ -2,7 +2,7 @@
 from vf.common import Harness, dump_image
 
 LEVEL = "other"
-TECHNIQUE = "CBMC frame-condition harness on the real whole scan: every shared object (compiled-rules image, YR_RULES, global tables, another scanner) is bitwise unchanged by a scan, for all inputs in the bound; interleavings are not explored"
+TECHNIQUE = "CBMC frame-condition harness on the real whole scan: every shared object (compiled-rules image, YR_RULES, global tables, another scanner) is bitwise unchanged by a scan - after it and, for the strings/rules tables and YR_RULES, at every callback inside it (matches limit scaled to 3 so that muting happens) - for all inputs in the bound; interleavings are not explored"
 ASSUMPTIONS = ["REDUCTION, not a schedule exploration: scans that write only their own scanner cannot race on shared state; CBMC cannot execute real threads over this code (pointer-typed shared state, DESIGN P15)",
                "YR_TRYCATCH use count: only LIFO overlaps at critical-section granularity (mutex atomicity assumed); TLS, memory-mapped files and OpenSSL-internal state are outside",
                "data <= 4 bytes; rule evaluated unconditionally"]
